@@ -62,3 +62,95 @@ for k = 1, #fs do emit(fs[k]()) end
 	verifAssert(err == nil, "runs")
 	verifAssert(vhTraceIs(trace, IntValue(a+1), IntValue(a+2), IntValue(2*a+1), IntValue(2*a+2)), "each-closure-keeps-its-own-variable")
 }
+
+// statement shapes whose meaning the manual spells out: order of evaluation in
+// multiple assignment (§3.3.3), adjustment of value lists, method-call self
+// evaluated once, repeat-until scope, and/or values, upvalues across three
+// levels, goto continue, a modified copy of a for control variable
+func VerifH_C01_corpus_statement_shapes() {
+	n := nondetInt64("n")
+	which := verifChoose("shape", 5)
+	N := IntValue(n)
+	var src string
+	var want []Value
+	switch which {
+	case 0:
+		src = `
+local n = ...
+local i, a = 3, {}
+i, a[i] = i + 1, n
+emit(i, a[3], a[4])
+local t = {}
+local old = t
+t, t.x = {}, n
+emit(old.x, t.x)
+local x, y = 1, n
+x, y = y, x
+emit(x, y)
+local u, v = {}, {}
+local k = 1
+k, u[k], v[k] = 2, n, k
+emit(k, u[1], u[2], v[1], v[2])
+`
+		want = []Value{IntValue(4), N, NilValue, N, NilValue, N, IntValue(1), IntValue(2), N, NilValue, IntValue(1), NilValue}
+	case 1:
+		src = `
+local n = ...
+local function f(...) return ... end
+local p, q, r = f(n, 2), 10
+emit(p, q, r)
+local s, t, u = 1, f(n, 2)
+emit(s, t, u)
+emit((f(n, 2)))
+local cnt = 0
+local obj = {tag = n, m = function(self, v) return self.tag, v end}
+local function get() cnt = cnt + 1 return obj end
+emit(get():m(5))
+emit(cnt)
+`
+		want = []Value{N, IntValue(10), NilValue, IntValue(1), N, IntValue(2), N, N, IntValue(5), IntValue(1)}
+	case 2:
+		src = `
+local n = ...
+local k = 0
+repeat local done = k >= 2; k = k + 1 until done
+emit(k)
+emit(nil or n, false and n, n and 7, 0 and n, nil and n, false or nil)
+local z = n == n and "same" or "diff"
+emit(z)
+`
+		want = []Value{IntValue(3), N, BoolValue(false), IntValue(7), N, NilValue, NilValue, StringValue("same")}
+	case 3:
+		src = `
+local n = ...
+local function outer()
+  local u = n
+  return function() return function() u = u + 1; return u end end
+end
+local mk = outer()
+local i1, i2 = mk(), mk()
+emit(i1(), i2(), i1())
+for j = 1, 3 do
+  if j == 2 then goto cont end
+  emit(j)
+  ::cont::
+end
+`
+		want = []Value{IntValue(n + 1), IntValue(n + 2), IntValue(n + 3), IntValue(1), IntValue(3)}
+	case 4:
+		src = `
+local n = ...
+for j = 1, 3 do local c = j; j = j * 10 + n; emit(c, j) end
+local acc = {}
+for j = 3, 1, -1 do acc[#acc + 1] = j end
+emit(#acc, acc[1], acc[3])
+local w = 0
+while true do w = w + 1; if w > 2 then break end end
+emit(w)
+`
+		want = []Value{IntValue(1), IntValue(10 + n), IntValue(2), IntValue(20 + n), IntValue(3), IntValue(30 + n), IntValue(3), IntValue(3), IntValue(1), IntValue(3)}
+	}
+	trace, _, err := vhRunChunk(src, N)
+	verifAssert(err == nil, "runs")
+	verifAssert(vhTraceIs(trace, want...), "statement-shape-behaves-as-the-manual-prescribes")
+}
